@@ -70,7 +70,9 @@ def run(c):
         c.add_model("Ranlux sequences", r, "%d seeds x %d draws" % (len(ss), nd))
         rc, out = vlib.sh("%s seq %d %s" % (exe, nd, " ".join(map(str, ss))), timeout=600)
         if rc != 0:
-            raise vlib.Inconclusive("ranlux harness failed: " + out[-500:])
+            c.violation("ranlux:crash-or-hang", "the real RandomGenerator did not deliver %d draws for seeds %s (harness rc=%d) %s" % (
+                nd, ss[:6], rc, out[-200:]), {"seeds": ss, "draws": nd})
+            out = "\n".join(l for l in out.splitlines() if l.startswith("{") and l.endswith("}"))
         for line in out.splitlines():
             d = json.loads(line)
             spec = [list(x) for x in tab[d["seed"]]]
